@@ -591,16 +591,16 @@ termination_by rest.length
 /-- the text loop: `none` = reject; else `(lines with escapes and trailing SP/TAB removed, rest)`
     where `rest` starts at the `-----BEGIN PGP SIGNATURE-----` line -/
 def csText (rest : Bytes) : Option (List Bytes × Bytes) :=
+  if _hne : rest = [] then none else     -- `getLine []` = `([], [])`: the next test would reject it
   let p := getLine rest
   if p.1.isEmpty && p.2.isEmpty then none else
   if p.1 == csEndText then some ([], rest) else
-  if hne : rest = [] then none else
-  have : p.2.length < rest.length := getLine_lt rest hne
   let line := if hasPrefix p.1 [45, 32] then p.1.drop 2 else p.1
   match csText p.2 with
   | none => none
   | some (ls, r) => some (trimRightSpTab line :: ls, r)
 termination_by rest.length
+decreasing_by exact getLine_lt rest _hne
 
 structure CSBlock where
   hashes : List Bytes
